@@ -170,6 +170,7 @@ func (p c12) stream(c *core.C, cs c12Stream) {
 		}
 		off := 0
 		cks := chunks(r, len(data))
+		var midSum, midWant []byte
 		if cs.OneWrite {
 			cks = []int{len(data)}
 			if len(data) >= 262144 && len(cs.Algos) >= 2 {
@@ -187,7 +188,8 @@ func (p c12) stream(c *core.C, cs c12Stream) {
 			}
 			off += k
 			if i == len(cks)/2 && len(hs) > 0 { // Sum in mid-stream must not disturb the state
-				hs[0].Sum(nil)
+				midSum = hs[0].Sum(nil)
+				midWant = digest(cs.Algos[0], data[:off])
 				if hs[0].Size() != int64(off) {
 					c.Failf("hashing writer: Size() = %d after %d bytes", hs[0].Size(), off)
 				}
@@ -195,6 +197,14 @@ func (p c12) stream(c *core.C, cs c12Stream) {
 		}
 		if !bytes.Equal(buf.Bytes(), data) {
 			c.Failf("hashing writer altered or lost bytes: %d in, %d out", len(data), buf.Len())
+		}
+		// a digest handed out belongs to the caller: more writes and a later Sum(nil) must not change it
+		if midSum != nil {
+			hs[0].Sum(nil)
+			if !bytes.Equal(midSum, midWant) {
+				c.Failf("%s Sum(nil) taken in mid-stream was %x then; after the rest of the stream and another Sum(nil) the same slice reads %x", cs.Algos[0], midWant, midSum)
+			}
+			c.Cover("stream:mid-stream-digest-kept-by-the-caller")
 		}
 		if cs.Seed%2 == 0 {
 			check("NewHasherWriters", hs, cs.Algos, false)
@@ -530,7 +540,13 @@ func (p c12) verify(c *core.C, cs c12Verify) {
 			}
 			off += k
 		}
-		accepted = v.Close() == nil
+		first := v.Close()
+		accepted = first == nil
+		// the usual pattern is "defer v.Close()" plus an explicit Close: a second Close must not turn a stream
+		// that matched into a failure
+		if second := v.Close(); accepted && second != nil {
+			c.Failf("verifier of a matching stream: the first Close returns nil, a second Close returns %v (%T)", second, second)
+		}
 	}
 	c.Cover(fmt.Sprintf("verify:%s:%s", cs.Algo, map[bool]string{true: "accept", false: "reject"}[wantAccept]))
 	if accepted != wantAccept {
